@@ -13,6 +13,7 @@ mod engine_s;
 mod exec;
 mod explore;
 mod graphs;
+mod ishim;
 mod mask;
 mod node;
 mod oracle;
@@ -119,6 +120,7 @@ fn write_replay(dir: &Path, r: &ViolRec) -> PathBuf {
         "trace": format!("{:?}", r.trace),
         "result": r.result,
         "replay": format!("./check replay {}", path.display()),
+        "build": ishim::build_name(),
     });
     let _ = std::fs::write(&path, serde_json::to_string_pretty(&v).unwrap());
     path
@@ -176,14 +178,57 @@ fn spawn_build_watchdog(is_c18: bool, id: u8, tier: &str, seed: i64, dir: &Path)
     });
 }
 
+/// Checks that are also run against fn_graph built without `interruptible` (C08 is about
+/// interruption only; the builder-side properties C11-C14, C16-C18 do not depend on the feature).
+const DEFAULT_BUILD_CHECKS: [u8; 11] = [1, 2, 3, 4, 5, 6, 7, 9, 10, 15, 20];
+
+fn default_build_bin() -> Option<PathBuf> {
+    if let Ok(p) = std::env::var("FGV_NI_BIN") {
+        return Some(PathBuf::from(p)).filter(|p| p.exists());
+    }
+    let exe = std::env::current_exe().ok()?;
+    let p = exe.parent()?.parent()?.join("ni").join("release").join("fgv");
+    p.exists().then_some(p)
+}
+
 fn check(id: u8, tier: &str) -> i32 {
     let t0 = Instant::now();
-    let deadline = deadline_for(tier);
+    ishim::set_tier(tier);
     let dir = verif_dir();
     let seed: i64 = std::env::var("VERIF_SEED").ok().and_then(|s| s.parse().ok()).unwrap_or(0);
     let mut st = Stats::default();
     let mut log: Vec<Value> = vec![];
-    eprintln!("fgv: checking C{id:02} tier={tier} threads={}", explore::threads());
+    eprintln!("fgv: checking C{id:02} tier={tier} threads={} build={}", explore::threads(), ishim::build_name());
+    // The same check against fn_graph's DEFAULT feature set (no `interruptible`): a second harness
+    // binary, run first; its coverage is embedded in this run's evidence.
+    let mut default_build_part: Option<Value> = None;
+    if !ishim::DEFAULT_FEATURES_BUILD && DEFAULT_BUILD_CHECKS.contains(&id) {
+        let Some(bin) = default_build_bin() else {
+            eprintln!("MACHINERY: the default-feature harness binary is missing (./check build makes it)");
+            return 2;
+        };
+        let part = std::env::temp_dir().join(format!("fgv-part-{}-C{id:02}.json", std::process::id()));
+        let _ = std::fs::remove_file(&part);
+        let status = std::process::Command::new(&bin).args(["check", &format!("C{id:02}"), "--tier", tier]).env("FGV_PART_OUT", &part).status();
+        match status.ok().and_then(|s| s.code()) {
+            Some(0) => {
+                let v = std::fs::read_to_string(&part).ok().and_then(|s| serde_json::from_str::<Value>(&s).ok());
+                let _ = std::fs::remove_file(&part);
+                match v {
+                    Some(v) => default_build_part = Some(v),
+                    None => {
+                        eprintln!("MACHINERY: the default-feature harness run left no coverage report");
+                        return 2;
+                    }
+                }
+            }
+            Some(1) => return 1,
+            other => {
+                eprintln!("MACHINERY: the default-feature harness run ended with {other:?}");
+                return 2;
+            }
+        }
+    }
     {
         // a single execution that runs for more than FGV_EXEC_LIMIT_S (default 60 s) means a poll
         // of the subject does not return: C04 / C05 report it, other checks stop with exit 2
@@ -205,6 +250,7 @@ fn check(id: u8, tier: &str) -> i32 {
             }
         });
     }
+    let deadline = deadline_for(tier);
     match id {
         1 | 2 | 3 | 4 | 5 | 6 | 7 | 8 | 9 | 10 => {
             let (spaces, focus) = match id {
@@ -219,7 +265,7 @@ fn check(id: u8, tier: &str) -> i32 {
                 9 => props_run::c09(tier),
                 _ => props_run::c10(tier),
             };
-            if id == 6 {
+            if id == 6 && !ishim::DEFAULT_FEATURES_BUILD {
                 spawn_build_watchdog(false, id, tier, seed, &dir);
                 props_build::run_build_props(6, tier, deadline, &mut st, &mut log);
             }
@@ -295,6 +341,19 @@ fn check(id: u8, tier: &str) -> i32 {
     if st.capped {
         coverage["caps"] = json!("wall-clock cap reached: spaces marked completed=false were cut short; spaces are ordered smallest first and everything marked completed=true was enumerated completely");
     }
+    coverage["fn_graph_features"] = json!(if ishim::DEFAULT_FEATURES_BUILD { "async, graph_info (fn_graph's default set plus graph_info)" } else { "async, interruptible, graph_info" });
+    if let Some(part) = &default_build_part {
+        let mut c = part["coverage"].clone();
+        if let Some(a) = c["samples"].as_array_mut() {
+            a.truncate(2);
+        }
+        c["wall_s"] = part["wall_s"].clone();
+        coverage["default_feature_build"] = c;
+        coverage["explanation"] = json!(format!(
+            "{} The same check was first run by a second harness binary built against fn_graph WITHOUT its `interruptible` feature (the crate's default feature set, where the other cfg halves of the scheduler are compiled); its counts are under default_feature_build and are not included in the top-level counts.",
+            coverage["explanation"].as_str().unwrap_or("")
+        ));
+    }
     let viol_classes: Vec<Value> = st.viol_classes.iter().map(|(k, c)| json!({"class": k, "count": c})).collect();
     let ev = json!({
         "property_id": format!("C{:02}", m.id),
@@ -308,16 +367,23 @@ fn check(id: u8, tier: &str) -> i32 {
         "violation_classes": viol_classes,
         "known_findings_matched": known_hits,
         "machinery_errors": st.machinery_errors.iter().take(10).collect::<Vec<_>>(),
+        "build": ishim::build_name(),
     });
     let evd = dir.join("evidence");
     let _ = std::fs::create_dir_all(&evd);
-    let evp = evd.join(format!("C{:02}.json", id));
+    let mut evp = evd.join(format!("C{:02}.json", id));
+    if ishim::DEFAULT_FEATURES_BUILD && new_viols.is_empty() && st.machinery_errors.is_empty() {
+        if let Ok(p) = std::env::var("FGV_PART_OUT") {
+            evp = PathBuf::from(p);
+        }
+    }
     if let Err(e) = std::fs::write(&evp, serde_json::to_string_pretty(&ev).unwrap()) {
         eprintln!("fgv: cannot write {}: {e}", evp.display());
         return 2;
     }
     println!(
-        "C{id:02} {tier}: executions={} states={} transitions={} distinct_nontrivial={} violations={} exhaustive={} wall={:.1}s",
+        "C{id:02} {tier}{}: executions={} states={} transitions={} distinct_nontrivial={} violations={} exhaustive={} wall={:.1}s",
+        if ishim::DEFAULT_FEATURES_BUILD { " [fn_graph default-feature build]" } else { "" },
         st.execs,
         st.states,
         st.transitions,
@@ -381,7 +447,20 @@ fn main() {
             }
         }
         Some("replay") => match args.get(2) {
-            Some(p) => replay::replay(Path::new(p)),
+            Some(p) => {
+                let wanted = std::fs::read_to_string(p).ok().and_then(|s| serde_json::from_str::<Value>(&s).ok()).and_then(|v| v["build"].as_str().map(|s| s.to_string()));
+                if wanted.as_deref() == Some("default-features") && !ishim::DEFAULT_FEATURES_BUILD {
+                    match default_build_bin() {
+                        Some(bin) => std::process::Command::new(bin).args(["replay", p]).status().ok().and_then(|s| s.code()).unwrap_or(2),
+                        None => {
+                            eprintln!("MACHINERY: the default-feature harness binary is missing");
+                            2
+                        }
+                    }
+                } else {
+                    replay::replay(Path::new(p))
+                }
+            }
             None => {
                 eprintln!("usage: fgv replay <file>");
                 2
